@@ -545,6 +545,12 @@ def run(ctx):
     limit = 1200 if ctx.tier == 'quick' else 40000
     order = [0, 5, 8, 1, 6, 9, 2, 7, 10, 3, 4]
     k = ctx.shard * 10**6
+    # breadth first: a few schedules of every small scenario (both
+    # implementations) before the deep searches, so that a slow machine does
+    # not leave a whole class of scenario unvisited
+    for i in order:
+        explore_sync(ctx, SMALL[i], 25, bound=1)
+        explore_async(ctx, SMALL[i], 10)
     for pos, i in enumerate(order):
         spec = SMALL[i]
         if ctx.nshards > 1 and pos % ctx.nshards != ctx.shard:
